@@ -385,6 +385,20 @@ var c11Pairs = []c11Pair{
 			if off == 0 {
 				off = 1
 			}
+			// the member list need not be in layout order: one list in three is encoded in a
+			// permuted order (offsets unchanged)
+			if len(fs) > 1 && r.Chance(1, 3) {
+				if r.Bool() {
+					for i, j := 0, len(fs)-1; i < j; i, j = i+1, j-1 {
+						fs[i], fs[j] = fs[j], fs[i]
+					}
+				} else {
+					for i := len(fs) - 1; i > 0; i-- {
+						j := r.Intn(i + 1)
+						fs[i], fs[j] = fs[j], fs[i]
+					}
+				}
+			}
 			return fs, off
 		}
 		fields, size := gen(0)
@@ -1016,7 +1030,7 @@ func c11Run(c *ev.Ctx) {
 var C11 = &ev.Property{
 	ID:    "C11",
 	Level: "exploration",
-	Rule: "15 encoder/decoder pairs (superblock v0/2/3; object header v1/v2 up to the 255-byte chunk; datatype fixed/float/string, reference/opaque, compound v1/v3 incl. nested, vlen, array/enum, the 40 registry handlers; dataspace rank 1..32 with/without max dims; layout contiguous/chunked; attribute; attribute-info; link hard/soft/external with all flag combinations and name lengths 1/255/256/65535; link-info; symbol-table message), " +
+	Rule: "15 encoder/decoder pairs (superblock v0/2/3; object header v1/v2 up to the 255-byte chunk; datatype fixed/float/string, reference/opaque, compound v1/v3 incl. nested and with member lists in permuted (non-layout) order, vlen, array/enum, the 40 registry handlers; dataspace rank 1..32 with/without max dims; layout contiguous/chunked; attribute; attribute-info; link hard/soft/external with all flag combinations and name lengths 1/255/256/65535; link-info; symbol-table message), " +
 		"250 seeded well-formed values per case with boundary values; each value: encode twice (determinism), decode, compare every field, re-encode where possible. Filter-pipeline message is covered by C08. distinct = distinct value descriptors (pair + shape parameters); every value is non-trivial.",
 	Assumptions: []string{
 		"array/enum datatype properties have no library decoder: the inverse used is a direct reading of the layout the encoder documents",
